@@ -1,0 +1,21 @@
+//go:build verif
+
+// Verification contracts (property C15, addition; comment-only, read by /verif/govc).
+// What a new coordinator restores is what the old one persisted: a successful JoinGroup / Heartbeat answer is given
+// only after the group state the answer is based on has been written to the store - the write comes after the last
+// state transition of the request (completeIfReady / startRebalance), and a NONE heartbeat is never answered without
+// the write (the heartbeat time of a long-running stable group must reach the store).
+
+package broker
+
+//@ func (c *GroupCoordinator) JoinGroup
+//@   ghost gsaved bool = false
+//@   at completeIfReady#* after set gsaved = false
+//@   at startRebalance#* after set gsaved = false
+//@   at persistGroupLocked#1 after set gsaved = isNilIface(ret0)
+//@   ensures [C15.join_answer_only_after_final_state_is_persisted] result != nil && result.ErrorCode == 0 ==> gsaved
+
+//@ func (c *GroupCoordinator) Heartbeat
+//@   ghost gsaved bool = false
+//@   at persistGroupLocked#1 after set gsaved = isNilIface(ret0)
+//@   ensures [C15.heartbeat_none_only_after_persist] result != nil && result.ErrorCode == 0 ==> gsaved
